@@ -134,7 +134,7 @@ func (p *Program) transparent(fn *ssa.Function) bool {
 		return res
 	}
 	name := normName(fn.RelString(p.SPkg.Pkg))
-	if knownFuncs[name] || ast.IsExported(fn.Name()) || fn.Name() == "init" {
+	if knownFuncs[name] || ast.IsExported(fn.Name()) || isPackageInit(fn) {
 		return false
 	}
 	ci := p.callerIndex()[fn]
@@ -378,10 +378,14 @@ func (p *Program) runCallOf(c *ssa.Call) (*runCall, bool) {
 	key := p.calleeKey(c.Common())
 	if key == "checkOnce" {
 		nt, ok := p.resolve(c.Common().Args[0]).(*ssa.Call)
-		if !ok || p.calleeKey(nt.Common()) != "newT" {
+		if !ok {
 			return nil, false
 		}
-		return &runCall{Call: c, Stream: p.resolve(nt.Common().Args[1]), Prop: p.expr(c.Common().Args[1])}, true
+		inner, isT := p.tCreator(nt)
+		if !isT {
+			return nil, false
+		}
+		return &runCall{Call: c, Stream: p.resolve(inner.Common().Args[1]), Prop: p.expr(c.Common().Args[1])}, true
 	}
 	sc := c.Common().StaticCallee()
 	if sc == nil || !p.inRapid(sc) || sc.Blocks == nil || knownFuncs[p.fnName(sc)] {
@@ -422,4 +426,88 @@ func (p *Program) runCalls(fn *ssa.Function) []*runCall {
 		}
 	}
 	return out
+}
+
+// tConstructorClosure: f is a function literal that does nothing but build a T — every return yields the one newT(…)
+// call of its body — and is only ever called (`replay := func() *T { return newT(…) }`). Each call of it creates a T
+// of its own, exactly as a newT call written out at that place would.
+func (p *Program) tConstructorClosure(f *ssa.Function) (*ssa.Call, bool) {
+	if f == nil || f.Parent() == nil || len(f.Blocks) == 0 {
+		return nil, false
+	}
+	var inner *ssa.Call
+	for _, b := range f.Blocks {
+		for _, in := range b.Instrs {
+			if c, ok := in.(*ssa.Call); ok && p.calleeKey(c.Common()) == "newT" {
+				if inner != nil {
+					return nil, false
+				}
+				inner = c
+			}
+		}
+	}
+	if inner == nil {
+		return nil, false
+	}
+	n := 0
+	for _, b := range f.Blocks {
+		if ret, ok := b.Instrs[len(b.Instrs)-1].(*ssa.Return); ok {
+			n++
+			if len(ret.Results) != 1 || ret.Results[0] != ssa.Value(inner) {
+				return nil, false
+			}
+		}
+	}
+	if n == 0 {
+		return nil, false
+	}
+	// only called
+	for _, b := range f.Parent().Blocks {
+		for _, in := range b.Instrs {
+			mc, ok := in.(*ssa.MakeClosure)
+			if !ok || mc.Fn != ssa.Value(f) || mc.Referrers() == nil {
+				continue
+			}
+			for _, ref := range *mc.Referrers() {
+				switch x := ref.(type) {
+				case *ssa.Call:
+					if x.Common().Value != ssa.Value(mc) {
+						return nil, false
+					}
+				case *ssa.DebugRef:
+				default:
+					return nil, false
+				}
+			}
+		}
+	}
+	return inner, true
+}
+
+// tCreator: c creates a fresh T: newT(…) itself, or a call of a T-constructor closure. inner is the newT call whose
+// arguments describe the T (c itself in the first case).
+func (p *Program) tCreator(c *ssa.Call) (inner *ssa.Call, ok bool) {
+	if c == nil {
+		return nil, false
+	}
+	if p.calleeKey(c.Common()) == "newT" {
+		if _, isCtor := p.tConstructorClosure(c.Parent()); isCtor {
+			return nil, false // the closure's calls are the creators
+		}
+		return c, true
+	}
+	if mc, isMC := c.Common().Value.(*ssa.MakeClosure); isMC {
+		if f, isF := mc.Fn.(*ssa.Function); isF {
+			if in, ok := p.tConstructorClosure(f); ok {
+				return in, true
+			}
+		}
+	}
+	return nil, false
+}
+
+// isPackageInit: the package initialiser or one of the source file init functions (not a method that happens to be
+// named init).
+func isPackageInit(fn *ssa.Function) bool {
+	return fn.Signature.Recv() == nil && (fn.Name() == "init" || strings.HasPrefix(fn.Name(), "init#"))
 }
